@@ -1,5 +1,6 @@
 import XtModel.Model.Wire
 import XtModel.Model.Encoding
+import XtModel.Model.CliWire
 
 /-!
 Native driver: one case per input line, one answer per output line
@@ -59,6 +60,8 @@ def encoding (fs : List String) : String :=
 def answer (fs : List String) : String :=
   match fs with
   | "encdetect" :: _ | "reencode" :: _ | "reencstream" :: _ => encoding fs
+  | "cli" :: _ | "noflush" :: _ | "plan" :: _ | "ext" :: _ | "stdinpath" :: _ | "fmtname" :: _ | "pipecheck" :: _
+  | "lexopt" :: _ => Xt.CliWire.answer fs
   | _ => "bad-engine"
 
 partial def loop (h : IO.FS.Stream) (out : IO.FS.Stream) : IO Unit := do
@@ -69,6 +72,7 @@ partial def loop (h : IO.FS.Stream) (out : IO.FS.Stream) : IO Unit := do
   | [_] => out.putStrLn "bad-line"; loop h out
   | eng :: id :: rest =>
     out.putStrLn (id ++ " " ++ answer (eng :: rest))
+    out.flush
     loop h out
 
 end Drv
